@@ -314,6 +314,13 @@ def run(chk):
     cases.append(((4, 4), 8, ("tsl", [[2, 2], [2, 2]], [[8, 2], [4, 1]], 0), ("tsl", [[2, 2], [2, 2]], [[1, 4], [2, 8]], 0)))
     cases.append(((4, 8), 8, ("tsl", [[4], [2, 2, 2]], [[8], [4, 2, 1]], 0), ("tsl", [[4], [2, 2, 2]], [[1], [4, 8, 16]], 0)))
     # dynamic shapes
+    # broadcast sources: a static stride of 0 (one row / one element replicated)
+    for elw in (8, 32):
+        cases.append(((4, 8), elw, ("strided", [0, 1], 0), ("id",)))
+        cases.append(((4, 8), elw, ("strided", [0, 1], 2), ("tsl", [[2, 2], [2, 4]], [[16, 4], [8, 1]], 0)))
+        cases.append(((4, 8), elw, ("strided", [8, 0], 0), ("id",)))
+        cases.append(((8,), elw, ("strided", [0], 0), ("id",)))
+        cases.append(((2, 4, 8), elw, ("strided", [0, 8, 1], 0), ("id",)))
     # element widths that are not a multiple of 8 bits
     for elw in (1, 4, 12) if quick else (1, 4, 12, 24, 48):
         b2 = [[2, 2], [2, 4]]
